@@ -28,6 +28,12 @@ PAIRS = {
     'p5x4star': ([[0.0, 0.0, 0.0], [0.14, 0.03, 0.01], [0.27, -0.04, 0.06], [0.41, 0.02, -0.02], [0.2, 0.2, 0.1]],
                  [[0.2, 0.1, 0.03], [0.02, 0.12, -0.02], [0.37, 0.13, 0.0], [0.22, 0.27, 0.11]],
                  [(0, 1), (0, 2), (0, 3)]),
+    # mobile molecule with a ring that carries a side chain (4-ring 0-1-2-3 + tail 2-4-5): single-atom moves keep the
+    # bonds of the traversal tree exact (the ring-closing bond may stretch)
+    'p3x6ringtail': ([[0.0, 0.0, 0.0], [0.2, 0.05, -0.03], [0.4, -0.04, 0.06]],
+                     [[0.0, 0.1, 0.0], [0.14, 0.13, 0.02], [0.15, 0.27, -0.01], [0.01, 0.25, 0.03],
+                      [0.28, 0.36, 0.04], [0.41, 0.33, -0.05]],
+                     [(0, 1), (1, 2), (2, 3), (0, 3), (2, 4), (4, 5)]),
 }
 
 
@@ -185,11 +191,28 @@ class Run:
                         V.append(('search/atom-move-not-of-held-configuration', ''))
                     if not np.array_equal(mo, test):
                         V.append(('search/atom-move-result-not-evaluated', ''))
+                exact = []
                 for a, b in self.edges:
                     ln = dict(self.info[a])[b]
                     if abs(np.linalg.norm(test[a] - test[b]) - ln) > 1e-9 * ln:
-                        V.append(('search/atom-move-breaks-bond', f'{a}-{b}'))
-                        break
+                        if len(self.edges) < len(self.mobile0):          # acyclic: every bond is exact
+                            V.append(('search/atom-move-breaks-bond', f'{a}-{b}'))
+                            break
+                    else:
+                        exact.append((a, b))
+                else:
+                    if len(self.edges) >= len(self.mobile0):
+                        # cyclic: the bonds that are exact must still connect every atom (a traversal tree)
+                        comp = {0}
+                        grew = True
+                        while grew:
+                            grew = False
+                            for a, b in exact:
+                                if (a in comp) != (b in comp):
+                                    comp |= {a, b}
+                                    grew = True
+                        if len(comp) != len(self.mobile0):
+                            V.append(('search/atom-move-breaks-bond', f'exact bonds connect only {sorted(comp)}'))
             if abs(e1 - chi2_ref(self.fixed, test, self.restr)) > 1e-9 * max(1.0, abs(e1)):
                 V.append(('search/measure-differs-from-definition', f'{e1}'))
             u = None
